@@ -222,6 +222,7 @@ func runTraceCrash(e *simcore.Env, tp *simcore.Tape) {
 			return
 		}
 		m := wl.NewTraceModel(s)
+		m.TolerateTag = func(string) bool { return true } // value fidelity is judged by C13/C01
 		// Stalled maintenance: the stallN-th creation of a part directory (the output of a flush or of a merge, core
 		// or secondary index) blocks until the driver has performed stallOps further operations, so that ingestion,
 		// flushes and merges overlap.
